@@ -14,7 +14,7 @@ meta = {
     "id": sid, "breaks_property": prop, "base_commit": base,
     "needs_to_manifest": needs,
     "confirmed_by_me": {
-        "how": "tools/validate_mutant.sh in the author's scratch worktree: existing suite (cargo test --offline --no-fail-fast) passes with the change; demo.rs (as tests/mutant_demo.rs) fails with the change and passes with `git stash push -- src`",
+        "how": "tools/validate_mutant.sh in the author's scratch worktree: existing suite (cargo test --offline --no-fail-fast) passes with the change; demo.rs (as tests/mutant_demo.rs) fails with the change and passes with the change reverted (`git apply -R MUTANT.diff`)",
         "log_tail": open(vlog).read()[-1500:] if vlog and os.path.exists(vlog) else None,
     },
     "checks_run_against_it": "tools/try_mutant.sh patch.diff <props> (git apply in /repo, ./check <prop> quick, git checkout -- .)",
